@@ -8,7 +8,7 @@
    The instance ranges are finite (listed per theorem); the unbounded statements about the model
    are in Properties_C04.v.  Statements only: every theorem is closed by [exact]. *)
 From BSpl Require Import Scalar Outcome Support Poly Spline Ops Forms Proofs_KernelTac.
-From BSpl.gen Require Import KernelGen_der KernelGen_pos KernelGen_misc.
+From BSpl.gen Require Import KernelGen_der KernelGen_pos KernelGen_misc KernelGen_big.
 
 (* Derivative<k>::transform<T,n>, k = 0..4, n = 1..7, equals transform (ODer k) *)
 Theorem C04_K_derivative_as_compiled : kernels_der_agree.
@@ -35,3 +35,16 @@ Theorem C04_K_binomial_as_compiled : kernels_binom_agree.
 Proof. exact kernels_binom_agree_ok. Qed.
 Print Assumptions C04_K_binomial_as_compiled.
 
+(* the same three functions at large arguments (results beyond 2^64 and 2^53): faculty 13..30, ratios such as
+   25!/5!, 40!/20!, 1/(21!), binomials such as C(30,15), C(40,20) *)
+Theorem C04_K_faculty_large_as_compiled : kernels_bigfaculty_agree.
+Proof. exact kernels_bigfaculty_agree_ok. Qed.
+Print Assumptions C04_K_faculty_large_as_compiled.
+
+Theorem C04_K_faculty_ratio_large_as_compiled : kernels_bigfacratio_agree.
+Proof. exact kernels_bigfacratio_agree_ok. Qed.
+Print Assumptions C04_K_faculty_ratio_large_as_compiled.
+
+Theorem C04_K_binomial_large_as_compiled : kernels_bigbinom_agree.
+Proof. exact kernels_bigbinom_agree_ok. Qed.
+Print Assumptions C04_K_binomial_large_as_compiled.
